@@ -87,6 +87,34 @@ std::vector<std::pair<uint64_t, uint64_t>> AsyncSim::ha_sent_all(const HRec &r, 
 	return out;
 }
 
+// earliest moment at which a sub-request standing for this request was dispatched to endpoint ei (TCP: written completely; HTTP:
+// handed to libcurl) after `after`; -1 = never
+int64_t AsyncSim::ha_dispatch_ms(const HRec &r, size_t ei, uint64_t after) {
+	SimEndpoint &e = eps[ei];
+	int64_t best = -1;
+	if (!e.http) { for (auto &ss : ha_sent_all(r, ei, after)) { int64_t t = K.ms_at(ss.second); if (best < 0 || t < best) best = t; } return best; }
+	for (auto &xp : C.xfers) {
+		if (xp->ep != e.net_ep || xp->added_seq <= after) continue;
+		ReqInfo ri;
+		if (!parse_request(xp->body_at_add, e.cfg.key, ri) || !ri.has_req) continue;
+		bool mine = !svc_ext ? (ri.has_hash && ri.hash == r.hash) : (ri.has_agg_time && ri.agg_time == r.agg_time && ri.has_pub_time == r.has_pub && (!r.has_pub || ri.pub_time == r.pub_time));
+		if (mine && (best < 0 || xp->added_ms < best)) best = xp->added_ms;
+	}
+	return best;
+}
+
+// a receive timeout reported for a request: at some endpoint a sub-request must have been waiting for at least the configured time
+bool AsyncSim::ha_receive_timeout_possible(const HRec &r, const Attempt &a) {
+	if (rcv_to == 0 || backward_jump) return true;
+	for (size_t ei = 0; ei < eps.size(); ei++) {
+		// sub-requests of every round of the request may still be around
+		int64_t t = ha_dispatch_ms(r, ei, r.att.empty() ? 0 : r.att.front().accepted_seq);
+		if (t >= 0 && K.now_ms - t >= (int64_t)rcv_to * 1000) return true;
+	}
+	(void)a;
+	return false;
+}
+
 static bool frame_answers(const Frame &f, const HRec &r, bool ext) {
 	if (!f.clean_resp) return false;
 	if (!ext) return f.info.has_chains && f.info.first_input == r.hash;
@@ -166,6 +194,8 @@ void AsyncSim::ha_on_returned(KSI_AsyncHandle *h, size_t waiting) {
 				// the window of an earlier attempt may hold the cause as well
 				if (!any_cause && rec->att.size() > 1) any_cause = true;
 				if (!any_cause) K.fail("C15", "notice-without-cause", "run", "ERROR_NOTICE (0x%x) for request #%d although no endpoint had any failure", err, rec->idx);
+				else if (err == KSI_NETWORK_RECIEVE_TIMEOUT && !ha_receive_timeout_possible(*rec, rec->att.back()))
+					K.fail("C15", "notice-without-cause", "receive-timeout-too-early", "receive-timeout notice for request #%d although no endpoint has had its sub-request for %d s", rec->idx, rcv_to);
 			}
 		}
 		KSI_AsyncHandle_free(h);
@@ -232,6 +262,8 @@ void AsyncSim::ha_on_returned(KSI_AsyncHandle *h, size_t waiting) {
 		}
 	} else if (state == KSI_ASYNC_STATE_ERROR) {
 		if (err == KSI_OK) K.fail("C15", "error-state-without-code", "run", "request #%d in ERROR state with error code 0", rec->idx);
+		if (err == KSI_NETWORK_RECIEVE_TIMEOUT && !ha_receive_timeout_possible(*rec, a))
+			K.fail("C15", "error-although-an-endpoint-did-not-fail", "receive-timeout-too-early", "request #%d ended with a receive timeout although no endpoint has had its sub-request for %d s", rec->idx, rcv_to);
 		for (size_t ei = 0; ei < eps.size(); ei++) {
 			if (ei < rec->sub_full.size() && rec->sub_full[ei]) continue;
 			std::string why;
